@@ -136,7 +136,10 @@ PROPS["C04"] = dict(
           "queries / drop; hooks inside tracked() and input_session() let the scheduler separate 'lock held' "
           "from 'timestamp sampled'. Per tracked engine all returned values must be the from-scratch values "
           "of ONE committed input state S_k with committed_before_call <= k <= started_before_return; then a "
-          "final sweep on the last state. non-trivial = a reader life overlapped a session (window hi > lo); "
+          "final sweep on the last state. In a third of the histories executors of normal nodes hand a clone of "
+              "their engine to a spawned helper task that reads inputs, readers abandon requests at seeded "
+              "suspensions and drop their engine, and the helper's reads must be the inputs of ONE committed "
+              "state. non-trivial = a reader life overlapped a session (window hi > lo); "
           "distinct = hash(program, history)"),
     components=ENGINE_COMPONENTS,
     assumptions=COMMON_ASSUME + ["a single writer task (two concurrently open sessions are documented to deadlock)"],
